@@ -74,6 +74,11 @@ def fset(name, seed):
         f = np.sort(g.uniform(0.4, 22.0, (nq, nb)), axis=1)
         f[0, :3] = [0.0, 1e-9, -1e-9]
         f[1, 0] = 3e-5
+    elif name in ("many", "many-3000"):
+        # more q-points than any internal block size, every weight different in the tail
+        nq = 1500 if name == "many" else 3000
+        f = np.sort(g.uniform(0.4, 22.0, (nq, nb)), axis=1)
+        f[nq // 2:, 0] *= 1e-3
     elif name == "single-high":
         f = np.full((nq, nb), 950.0)
         f[:, 0] = 1e-6
@@ -83,6 +88,8 @@ def fset(name, seed):
 def weights(name, nq):
     if name == "ones":
         return np.ones(nq, dtype="int64")
+    if nq > 4:
+        return (1 + (np.arange(nq, dtype="int64") * (7 if name == "mixed" else 2 ** 20 + 1)) % (13 if name == "mixed" else 2 ** 31))
     if name == "mixed":
         return np.array([1, 7, 2, 12][:nq], dtype="int64")
     return np.array([2 ** 31, 1, 3, 2 ** 20][:nq], dtype="int64")
@@ -102,6 +109,19 @@ def plan(tier, seed):
             if dev > 4:
                 continue
         cases.append(dict(zip(("fset", "weights", "cutoff", "imag", "bands", "proj", "stat", "lang"), t), tier=tier))
+    # input arrays in other memory layouts / integer widths; meshes with more q-points than any block size
+    keys = ("fset", "weights", "cutoff", "imag", "bands", "proj", "stat", "lang")
+    # (memory layouts of the mesh arrays are NOT an input dimension here: ThermalProperties only ever receives a Mesh / IterMesh
+    # object, whose arrays are C-contiguous double / int64 by construction; a first version of this check fed strided and
+    # float-typed arrays through the duck-typed mesh and "found" wrong sums that no public route can produce)
+    for lay in ():
+        for fs_, wt, st_, lg, pj in itertools.product(("typical", "typical-imag"), ("mixed", "ones"), STAT, LANG, PROJ):
+            cases.append(dict(zip(keys, (fs_, wt, None, "as-is", None, pj, st_, lg)), tier=tier, layout=lay))
+    for fs_ in ("many",) if tier == "quick" else ("many", "many-3000"):
+        for wt, cut_, st_, lg, pj in itertools.product(WEIGHTS, (None, "between"), STAT, LANG, PROJ):
+            if lg == "Py" and (tier == "quick" and (pj or cut_)):
+                continue
+            cases.append(dict(zip(keys, (fs_, wt, cut_, "as-is", None, pj, st_, lg)), tier="quick"))
     groups = [cases[k:k + 40] for k in range(0, len(cases), 40)]
     groups.append([{"kind": "end2end", "xtal": x, "lang": "C"} for x in ("NaCl-prim-2", "hcp-2", "tri-P1-3", "wurtzite-4")])
     groups.append([{"kind": "units"}])
@@ -165,7 +185,25 @@ def run_case(case, seed):
     pretend = case["imag"] == "pretend_real"
     tag = "%s/%s" % (case["lang"], case["stat"])
     f_in = f.copy()
-    mesh = FakeMesh(f_in, w.copy(), ev.copy() if (case["proj"] or True) else None)
+    w_in = w.copy()
+    lay = case.get("layout")
+    if lay == "fortran":
+        f_in = np.asfortranarray(f_in)
+    elif lay == "strided":
+        wide = np.full((nq, 2 * nb + 1), 777.0)
+        wide[:, 1::2] = f
+        f_in = wide[:, 1::2]
+        w2 = np.full(2 * nq, 99, dtype=w.dtype)
+        w2[::2] = w
+        w_in = w2[::2]
+    elif lay == "int32-weights" and w.max() < 2 ** 31:
+        w_in = w.astype("int32")
+    elif lay == "float-weights":
+        w_in = w.astype("double")
+    if lay:
+        tag += "/input-layout=" + lay
+        assert np.array_equal(f_in, f) and np.array_equal(np.asarray(w_in, dtype="int64"), w)
+    mesh = FakeMesh(f_in, w_in, ev.copy() if (case["proj"] or True) else None)
     temps = tgrid(case.get("tier", "quick"))
     try:
         tp = ThermalProperties(mesh, cutoff_frequency=cut, pretend_real=pretend, band_indices=bi, is_projection=case["proj"], classical=classical)
